@@ -19,6 +19,23 @@ BIN = {ast.BitOr: operator.or_, ast.Sub: operator.sub, ast.BitAnd: operator.and_
 def ev(node, env):
     if isinstance(node, ast.Constant):
         return node.value
+    if isinstance(node, (ast.Attribute, ast.Subscript)):
+        key = ast.unparse(node)
+        if key in env:
+            return env[key]
+    if isinstance(node, ast.Dict):
+        if any(k is None for k in node.keys):
+            raise Unsupported('dict unpacking')
+        return {ev(k, env): ev(v, env) for k, v in zip(node.keys, node.values)}
+    if isinstance(node, ast.DictComp) and len(node.generators) == 1 and isinstance(node.generators[0].target, ast.Name):
+        g = node.generators[0]
+        out = {}
+        for item in ev(g.iter, env):
+            e2 = dict(env)
+            e2[g.target.id] = item
+            if all(ev(c, e2) for c in g.ifs):
+                out[ev(node.key, e2)] = ev(node.value, e2)
+        return out
     if isinstance(node, ast.Name):
         if node.id in env:
             return env[node.id]
@@ -28,13 +45,24 @@ def ev(node, env):
         return vals if isinstance(node, ast.List) else (tuple(vals) if isinstance(node, ast.Tuple) else set(vals))
     if isinstance(node, ast.Subscript):
         base = ev(node.value, env)
-        key = ev(node.slice, env)
+        if isinstance(node.slice, ast.Slice):
+            sl = node.slice
+            key = slice(*[None if p is None else ev(p, env) for p in (sl.lower, sl.upper, sl.step)])
+            if not isinstance(base, (list, tuple, str)):
+                raise Unsupported('slice of a non-sequence')
+        else:
+            key = ev(node.slice, env)
         try:
             return base[key]
         except Exception:
             raise Unsupported('subscript')
     if isinstance(node, ast.UnaryOp) and isinstance(node.op, ast.Not):
         return not ev(node.operand, env)
+    if isinstance(node, ast.UnaryOp) and isinstance(node.op, ast.USub):
+        v = ev(node.operand, env)
+        if isinstance(v, (int, float)) and not isinstance(v, bool):
+            return -v
+        raise Unsupported('negation')
     if isinstance(node, ast.BoolOp):
         if isinstance(node.op, ast.And):
             val = True
@@ -62,6 +90,13 @@ def ev(node, env):
                 raise Unsupported('comparison of incomparable model values')
             left = right
         return True
+    if isinstance(node, ast.BinOp) and isinstance(node.op, ast.Add):
+        a, b = ev(node.left, env), ev(node.right, env)
+        if isinstance(a, list) and isinstance(b, list):
+            return a + b
+        if isinstance(a, (int, float)) and isinstance(b, (int, float)) and not isinstance(a, bool) and not isinstance(b, bool):
+            return a + b
+        raise Unsupported('addition of model values')
     if isinstance(node, ast.BinOp) and type(node.op) in BIN:
         a, b = ev(node.left, env), ev(node.right, env)
         if isinstance(a, (set, frozenset)) and isinstance(b, (set, frozenset)):
@@ -83,6 +118,16 @@ def ev(node, env):
         if isinstance(node.func, ast.Name) and node.func.id == 'isinstance' and len(node.args) == 2 \
                 and isinstance(node.args[1], ast.Name) and node.args[1].id in ('list', 'tuple', 'set', 'dict', 'str'):
             return isinstance(ev(node.args[0], env), {'list': list, 'tuple': tuple, 'set': set, 'dict': dict, 'str': str}[node.args[1].id])
+        if isinstance(node.func, ast.Attribute) and node.func.attr in ('keys', 'values', 'items', 'copy') and not node.args \
+                and not node.keywords:
+            recv = ev(node.func.value, env)
+            if isinstance(recv, dict):
+                return {'keys': lambda: list(recv.keys()), 'values': lambda: list(recv.values()),
+                        'items': lambda: list(recv.items()), 'copy': lambda: dict(recv)}[node.func.attr]()
+            if isinstance(recv, list) and node.func.attr == 'copy':
+                return list(recv)
+            if not isinstance(recv, (set, frozenset)):
+                raise Unsupported('method %s' % node.func.attr)
         if isinstance(node.func, ast.Attribute) and node.func.attr in SET_METHODS and not node.keywords:
             recv = ev(node.func.value, env)
             if not isinstance(recv, (set, frozenset)):
@@ -94,15 +139,70 @@ def ev(node, env):
                 raise Unsupported('set method arguments')
         raise Unsupported('call %s' % ast.unparse(node)[:40])
     if isinstance(node, (ast.ListComp, ast.SetComp, ast.GeneratorExp)) and len(node.generators) == 1 \
-            and isinstance(node.generators[0].target, ast.Name):
+            and isinstance(node.generators[0].target, (ast.Name, ast.Tuple)):
         g = node.generators[0]
         out = []
         for item in ev(g.iter, env):
             e2 = dict(env)
-            e2[g.target.id] = item
+            _bind(g.target, item, e2)
             if all(ev(c, e2) for c in g.ifs):
                 out.append(ev(node.elt, e2))
         return set(out) if isinstance(node, ast.SetComp) else out
     if isinstance(node, ast.IfExp):
         return ev(node.body, env) if ev(node.test, env) else ev(node.orelse, env)
     raise Unsupported(type(node).__name__)
+
+
+def _bind(target, value, env):
+    if isinstance(target, ast.Name):
+        env[target.id] = value
+    elif isinstance(target, (ast.Tuple, ast.List)) and all(isinstance(e, ast.Name) for e in target.elts):
+        vals = list(value)
+        if len(vals) != len(target.elts):
+            raise Unsupported('unpacking')
+        for e, v in zip(target.elts, vals):
+            env[e.id] = v
+    else:
+        raise Unsupported('assignment target')
+
+
+def run(stmts, env):
+    """Execute a straight-line/loop fragment on model values (the checker's own interpretation)."""
+    for s in stmts:
+        if isinstance(s, ast.Pass) or (isinstance(s, ast.Expr) and isinstance(s.value, ast.Constant)):
+            continue
+        if isinstance(s, ast.Assign) and len(s.targets) == 1:
+            _bind(s.targets[0], ev(s.value, env), env)
+        elif isinstance(s, ast.AugAssign) and isinstance(s.target, ast.Name) and isinstance(s.op, (ast.Add, ast.BitOr)):
+            cur = ev(s.target, env)
+            val = ev(s.value, env)
+            if isinstance(cur, list) and isinstance(s.op, ast.Add):
+                cur.extend(list(val))           # in place, like list +=
+            elif isinstance(cur, set) and isinstance(s.op, ast.BitOr):
+                cur |= set(val)
+            else:
+                raise Unsupported('augmented assignment')
+        elif isinstance(s, ast.If):
+            run(s.body if ev(s.test, env) else s.orelse, env)
+        elif isinstance(s, ast.For) and not s.orelse:
+            for item in list(ev(s.iter, env)):
+                _bind(s.target, item, env)
+                run(s.body, env)
+        elif isinstance(s, ast.Expr) and isinstance(s.value, ast.Call) and isinstance(s.value.func, ast.Attribute) \
+                and s.value.func.attr in ('append', 'extend', 'add', 'update', 'insert') and not s.value.keywords:
+            recv = ev(s.value.func.value, env)
+            args = [ev(a, env) for a in s.value.args]
+            if isinstance(recv, list) and s.value.func.attr == 'append' and len(args) == 1:
+                recv.append(args[0])
+            elif isinstance(recv, list) and s.value.func.attr == 'extend' and len(args) == 1:
+                recv.extend(list(args[0]))
+            elif isinstance(recv, list) and s.value.func.attr == 'insert' and len(args) == 2:
+                recv.insert(args[0], args[1])
+            elif isinstance(recv, set) and s.value.func.attr == 'add' and len(args) == 1:
+                recv.add(args[0])
+            elif isinstance(recv, set) and s.value.func.attr == 'update' and len(args) == 1:
+                recv.update(args[0])
+            else:
+                raise Unsupported('call %s' % ast.unparse(s.value)[:40])
+        else:
+            raise Unsupported('statement %s' % type(s).__name__)
